@@ -547,6 +547,8 @@ class Ex:
             if sc is not None:
                 if nm in vt and not isinstance(sc.vars[nm], (VObj, VFunc)):
                     sc.vars[nm] = self.fresh(vt[nm], nm)
+                    if isinstance(sc.vars[nm], VList):
+                        self.assume(sc.vars[nm].n >= 0)
                 else:
                     sc.vars[nm] = self._havoc_val(sc.vars[nm], nm)
         for (objname, fld) in sorted(fields):
@@ -577,9 +579,12 @@ class Ex:
         if v is None:
             return v
         try:
-            return self.fresh(ty_of(v), hint)
+            nv = self.fresh(ty_of(v), hint)
         except Unsupported:
             raise Unsupported(f"cannot havoc {hint}={v!r}")
+        if isinstance(nv, VList):
+            self.assume(nv.n >= 0)  # type invariant of sequences
+        return nv
 
     def st_For(self, s):
         it = self.deopt(self.ev(s.iter), self.site(s.iter))
